@@ -162,7 +162,8 @@ def drop_nulls(t, j, env):
 class Corpus:
     """one interface: typedefs, echo methods (one per type), failing methods with declared errors"""
 
-    def __init__(self, iface, typedefs, echo_types, multi=None):
+    def __init__(self, iface, typedefs, echo_types, multi=None, err_names=None):
+        self.err_names = err_names or []    # names of the declared errors (default Err<i>)
         self.iface = iface
         self.typedefs = typedefs            # list of (name, type)
         self.env = dict(typedefs)
@@ -170,6 +171,9 @@ class Corpus:
         self.multi = multi or []            # list of field lists: method Multi<i>(fields) -> (fields)
         # errors only over named / plain types (anonymous types in error parameters are a known defect)
         self.err_types = [t for t in echo_types if not has_anon(t)]
+
+    def err_name(self, i):
+        return self.err_names[i] if i < len(self.err_names) else "Err%d" % i
 
     def text(self):
         out = ["interface " + self.iface]
@@ -182,7 +186,7 @@ class Corpus:
             out.append("method Multi%d(%s) -> (%s)" % (i, s, s))
         for i, t in enumerate(self.err_types):
             out.append("method Fail%d(v: %s) -> ()" % (i, ty_text(t)))
-            out.append("error Err%d (v: %s)" % (i, ty_text(t)))
+            out.append("error %s (v: %s)" % (self.err_name(i), ty_text(t)))
         return "\n".join(out) + "\n"
 
 
@@ -264,10 +268,10 @@ fn unhex(s: &str) -> Vec<u8> { if s == "-" { return vec![]; } (0..s.len()/2).map
         for i, t in enumerate(c.err_types):
             m = "Fail%d" % i
             fs = params(m)
-            src.append("  fn %s(&self, call: &mut dyn %s::Call_%s, %s) -> varlink::Result<()> { seen(json!({%s})); use %s::VarlinkCallError; call.reply_err%d(%s) }" % (
+            src.append("  fn %s(&self, call: &mut dyn %s::Call_%s, %s) -> varlink::Result<()> { seen(json!({%s})); %s::VarlinkCallError::reply_%s(call, %s) }" % (
                 snake(m), mod, m, ", ".join("r#%s: %s" % (f["name"], rust_type(f["type"], mod)) for f in fs),
                 ", ".join('"%s": serde_json::to_value(&r#%s).unwrap()' % (f["name"], f["name"]) for f in fs),
-                mod, i, ", ".join("r#%s" % f["name"] for f in fs)))
+                mod, snake(c.err_name(i)), ", ".join("r#%s" % f["name"] for f in fs)))
         src.append("}")
     # the client side: one function per (mod, method)
     src.append("fn client_call(conn: Arc<RwLock<Connection>>, modname: &str, method: &str, mode: &str, args: Value) -> String {")
@@ -277,7 +281,7 @@ fn unhex(s: &str) -> Vec<u8> { if s == "-" { return vec![]; } (0..s.len()/2).map
         names = ["Echo%d" % i for i in range(len(c.echo))] + ["Multi%d" % i for i in range(len(c.multi))] + ["Fail%d" % i for i in range(len(c.err_types))]
         for m in names:
             fs = defs[m + "_Args"]["struct"]
-            arms = "".join("%s::ErrorKind::Err%d(Some(a)) => format!(\"err:Err%d:{}\", hex(serde_json::to_string(a).unwrap().as_bytes())), " % (mod, i, i)
+            arms = "".join("%s::ErrorKind::%s(Some(a)) => format!(\"err:Err%d:{}\", hex(serde_json::to_string(a).unwrap().as_bytes())), " % (mod, c.err_name(i), i)
                            for i in range(len(c.err_types)))
             src.append("""    ("%s", "%s") => {
       use %s::VarlinkClientInterface;
